@@ -719,7 +719,12 @@ func TestVerif_C10(t *testing.T) {
 
 	root := commonScratchRoot(t)
 	var srcs []*c10Src
-	for _, sh := range commonShapes(false) {
+	// plus chains whose directory names do not sort like their Raft indexes (90 -> 100): the stream must
+	// carry the WAL segments in index order, not in name order
+	c10Shapes := append(commonShapes(false),
+		commonShape{Name: "full+1wal,inc1,inc1@90..110", FullWALs: 1, Incs: []int{1, 1}, StartIdx: 80},
+		commonShape{Name: "full,inc1,inc2@100..120", Incs: []int{1, 2}, StartIdx: 90})
+	for _, sh := range c10Shapes {
 		if only := os.Getenv("VERIF_C10_SHAPE"); only != "" && only != sh.Name { // debugging aid
 			continue
 		}
